@@ -70,6 +70,22 @@ Proof.
   - intros o Hr. eapply resolve_sound; eassumption.
 Qed.
 
+(* 3a. Enclosing scope of a class body: a name that the body of a class directly inside a module does not bind is
+   looked up in the module by pydoctor (Class._localNameToFullName -> parent) as by Python (LOAD_NAME: class
+   namespace, then module globals); this is the lookup behind base-class expressions and `x = y.z` in class bodies. *)
+Theorem C04_expand_sound_class_scope :
+  forall P st, coherent P st ->
+  forall ctx pm m qual p rest v,
+    In ctx (objs st) -> o_kind ctx = KClass -> o_path ctx <> [] -> qual <> [] ->
+    parent_of st ctx = Some pm -> In pm (objs st) -> o_kind pm <> KClass ->
+    py_abs P (o_path pm) (VMod m) ->
+    child st ctx p = None -> assoc p (o_amap ctx) = None ->
+    (forall body, scope_body P m qual = Some body -> binder_of body p = None) ->
+    py_lookup P m qual (p :: rest) v ->
+    trail_ok st pm true (p :: rest) = true ->
+    py_abs P (expand_name st ctx (p :: rest)) v.
+Proof. exact expand_sound_class_fallback. Qed.
+
 (* 3b. ... and the invariants DO hold after pydoctor has processed any well-formed project made of import
    statements of every form (plain, `as`, `from`, relative, inside class bodies, package re-imports), function
    and class definitions (nested), under every processing order: whole-project soundness on that subset.
